@@ -287,6 +287,17 @@ def setup_sb(eng):
     base_setup(eng)
     nm.use_eq_contract(eng)
     eng.spec_required.add(SB)
+    # attribute writes to nodes of the input (there must be none)
+    setattr0 = eng.setattr
+
+    def setattr_(obj, name, value):
+        o = sym.force(obj)
+        if isinstance(o, ObjVal) and (o.tag or {}).get('lazy') and \
+                name in o.attrs:
+            cur().ghost.setdefault('input_writes', []).append(name)
+        return setattr0(obj, name, value)
+
+    eng.setattr = setattr_
     eng.contains_handlers[StructDict] = lambda e, d, k: d.contains(k)
     eng.getitem_handlers[StructDict] = lambda e, d, k: d.get(k)
     eng.len_handlers[StructDict] = lambda e, d: SNum(
@@ -315,6 +326,10 @@ def setup_sb(eng):
         repl = env_.vars['repl']
         new = repl.lookups[p.ghost['lookups0']:]
         items = new_items(env_.vars['args'], p.ghost['snap'])
+        p.oblige('C11/substitute/argument-not-modified',
+                 not p.ghost.get('input_writes'),
+                 info={'writes': p.ghost.get('input_writes'), 'signature':
+                       'substitute writes to a node of its argument'})
         if new:
             k, v = new[-1]
             ok = (items == [] if v is None else
@@ -386,6 +401,7 @@ def run_sb(eng, p):
     p.oblige('C04/substitute/raises-nothing', err is None,
              info={'outcome': repr(err.value) if err else '',
                    'signature': type(err.value).__name__ if err else ''})
+    frame_obligation(p, forest, F)
     if err is not None:
         return
     if r is forest:
@@ -612,6 +628,7 @@ def run_sb_ids(eng, p):
     p.oblige('C04/substitute/raises-nothing', err is None,
              info={'outcome': repr(err.value) if err else '',
                    'signature': type(err.value).__name__ if err else ''})
+    frame_obligation(p, forest, F)
     if err is not None:
         return
     if r is forest:
@@ -629,6 +646,16 @@ def run_sb_ids(eng, p):
                  mk_bool(fr.list_den(r) == SUBLP(F, fr.T0)),
                  info={'signature': 'the result is not assembled, in order, '
                        'from the contributions of the nodes of the input'})
+
+
+def frame_obligation(p, forest, F):
+    """The list handed in and its nodes are left as they are."""
+    ok = not p.ghost.get('input_writes') and len(forest.parts) == 1 and \
+        isinstance(forest.parts[0], wl.Seg) and z3.eq(forest.parts[0].seq, F)
+    p.oblige('C11/substitute/argument-not-modified', ok,
+             info={'writes': p.ghost.get('input_writes'), 'signature':
+                   'substitute writes to a node of its argument or changes '
+                   'the list it was given'})
 
 
 def substitute_contracts(tier):
